@@ -1038,7 +1038,15 @@ def local_zone_runs(run, cases, impl):
     for tz in TZ_ZONES:
         res = impl_run(sub, procs=min(common.NCPU, 8), tz=tz)
         nd = 0
+        differing = [(i, c) for i, c, r in zip(idx, sub, res) if comparable(c, r) != comparable(c, impl[i])]
+        # outcomes that differ between two runs in the SAME zone (random ids of embedded objects, ...) say nothing
+        again = impl_run([c for _, c in differing], procs=1, tz="UTC") if differing else []
+        unstable = {i for (i, c), r2 in zip(differing, again) if comparable(c, r2) != comparable(c, impl[i])}
+        info.setdefault("not_deterministic", 0)
+        info["not_deterministic"] = max(info["not_deterministic"], len(unstable))
         for i, c, r in zip(idx, sub, res):
+            if i in unstable:
+                continue
             if comparable(c, r) != comparable(c, impl[i]):
                 nd += 1
                 if nd <= 5:
@@ -1123,7 +1131,8 @@ def replay(payload):
     v = oracle_case(case, res)
     if r.get("tz") and r.get("check") == "process time zone":
         utc = impl_run(list(r.get("before", [])) + [case], procs=1, tz="UTC")[-1]
-        if comparable(case, utc) != comparable(case, res):
+        utc2 = impl_run(list(r.get("before", [])) + [case], procs=1, tz="UTC")[-1]
+        if comparable(case, utc) == comparable(case, utc2) and comparable(case, utc) != comparable(case, res):
             print("  the outcome differs from that of a process in UTC: %s" % str(utc.get("line", utc))[:1500])
             print("VIOLATION property=C05 replay=(given)")
             return 1
